@@ -709,6 +709,9 @@ func (e *Exec) call(f *Frame, x *ssa.Call) bool {
 	return false
 }
 
+// notHandled is returned by an intercept that declines: the real body is executed instead.
+type notHandled struct{}
+
 // dispatch handles builtins and intercepts. handled=false means: push a frame.
 func (e *Exec) dispatch(fv *FuncV, args []Value, cc *ssa.CallCommon, site ssa.Value) (res Value, handled, blocked bool) {
 	if fv.Builtin != "" {
@@ -720,11 +723,17 @@ func (e *Exec) dispatch(fv *FuncV, args []Value, cc *ssa.CallCommon, site ssa.Va
 	if fv.Fn == nil {
 		e.fail("nil-func", "call of nil function value")
 	}
+	if fv.Fn.Synthetic == "package initializer" && len(e.cur.Stack) > 0 {
+		// package init chains are not followed: only whitelisted packages' own initialisers run (Program.InitPkgs)
+		return nil, true, false
+	}
 	name := fv.Fn.String()
 	if ic, ok := intercepts[name]; ok {
 		r, b := ic(e, fv, args, cc)
-		e.noteStub(name)
-		return r, true, b
+		if _, nh := r.(notHandled); !nh {
+			e.noteStub(name)
+			return r, true, b
+		}
 	}
 	if r, ok := e.packageStub(fv.Fn, args, cc); ok {
 		return r, true, false
